@@ -410,6 +410,10 @@ func main() {
 		stressPart(w, vc.NewRand(vc.Seed()), os.Args[2] == "stress_service")
 		return
 	}
+	if len(os.Args) > 2 && os.Args[2] == "inflight" {
+		inflightPart(w)
+		return
+	}
 	root := os.Getenv("VERIF_ROOT")
 	fixed := len(os.Args) > 2 && os.Args[2] == "wmutex"
 	routing.VerifYieldHook = hook
